@@ -2,7 +2,8 @@ import Amoco.Props.C15
 open Amoco.Loader.Props
 #print axioms page_arith
 #print axioms page_pow2
-#print axioms loadable_pow2
+#print axioms congruent_seekable
+#print axioms congruent_pow2
 #print axioms loadsegment_bytes
 #print axioms elf_loads
 #print axioms elf_image_last_write
